@@ -132,6 +132,19 @@ func rulesC20(c *Ctx) {
 		}
 		c.Pin("appendData sites", nApp, 1)
 		c.Pin("removeFirst sites", nRem, 1)
+		// a stream's list is never reset as a whole: `*dl = dataList{}` zeroes first together with data, and the indices of
+		// everything appended before are handed out again (After answers old indices with silence instead of ErrEventsPurged)
+		dlT := c.P.LookupType(pM, "dataList")
+		for _, f := range c.funcsWithLits(pM) {
+			if f.Body == nil {
+				continue
+			}
+			for _, w := range Writes(f.Body, false) {
+				if st, isStar := ast.Unparen(w.LHS).(*ast.StarExpr); isStar && namedOf(f.TypeOf(st)) == dlT && dlT != nil {
+					c.Fail("dataList-reset:"+f.Name(), f, w.Stmt, "a dataList is overwritten as a whole")
+				}
+			}
+		}
 		ad := c.Fn(pM, "dataList", "appendData")
 		d := ad.Params()[1]
 		okA, okS := false, false
